@@ -658,7 +658,13 @@ func (f *blockFixture) lines(g genTx, o txObs, ws []*itutiltypes.TestAccount) (s
 	dSup := new(big.Int).Sub(o.minted, o.burnt)
 	if g.cosmos {
 		op := fmt.Sprintf("%s | ok=%d gu=%d", g.opline, b01(o.code == 0), o.gasUsed)
-		obs := fmt.Sprintf("cls=%s gw=%d dS=%s dC=%s dSup=%s", obsClass(o), o.gasWanted, d(sender), d(c.feeCollector()), dSup)
+		cls := obsClass(o)
+		if o.code != 0 && o.codespace == "sdk" && o.code == 11 && strings.Contains(o.log, "block gas meter") {
+			// a Cosmos transaction that overflows the block gas meter after it executed: runTx drops every event (so it
+			// looks like an ante refusal) but the ante effects (fee, sequence) stay — the model's class `blockoog`
+			cls = "blockoog"
+		}
+		obs := fmt.Sprintf("cls=%s gw=%d dS=%s dC=%s dSup=%s", cls, o.gasWanted, d(sender), d(c.feeCollector()), dSup)
 		return op, obs
 	}
 	x, nl, st, cum := "na", 0, "-", "-"
